@@ -178,6 +178,13 @@ func scribble(v reflect.Value, seen map[uintptr]bool) {
 		keys := v.MapKeys()
 		sort.Slice(keys, func(i, j int) bool { return fmt.Sprint(keys[i]) < fmt.Sprint(keys[j]) })
 		for i, k := range keys {
+			if v.Type().Key().Kind() != reflect.String {
+				// what a key references (pointer fields of struct keys, pointer
+				// elements of array keys, interface payloads) is memory too
+				kc := reflect.New(v.Type().Key()).Elem()
+				kc.Set(k)
+				scribbleThroughOnly(kc, seen)
+			}
 			if i == 0 {
 				// scribble what the old value references, then delete the key
 				old := reflect.New(v.Type().Elem()).Elem()
@@ -203,6 +210,30 @@ func scribble(v reflect.Value, seen map[uintptr]bool) {
 				continue
 			}
 			scribble(v.Field(i), seen)
+		}
+	}
+}
+
+// scribbleThroughOnly overwrites what v REFERENCES (pointees, map contents,
+// slice elements) but leaves v's own pointers and scalars alone, so a map key
+// stays the same key.
+func scribbleThroughOnly(v reflect.Value, seen map[uintptr]bool) {
+	switch v.Kind() {
+	case reflect.Pointer:
+		if !v.IsNil() {
+			scribble(v.Elem(), seen)
+		}
+	case reflect.Interface:
+		if !v.IsNil() {
+			scribbleThroughOnly(v.Elem(), seen)
+		}
+	case reflect.Struct:
+		for i := 0; i < v.NumField(); i++ {
+			scribbleThroughOnly(v.Field(i), seen)
+		}
+	case reflect.Array:
+		for i := 0; i < v.Len(); i++ {
+			scribbleThroughOnly(v.Index(i), seen)
 		}
 	}
 }
